@@ -44,6 +44,16 @@ static Json num(double d)
   if (std::fabs(d - r) <= TOL && std::fabs(r) < 9e15) return Json((long long)r);
   return Json(d);
 }
+// recorded executions (validated by TLC, whose values are integers): a value that is not within 1e-4 of an integer (or is
+// NaN / infinite) is recorded as NOT_AN_INTEGER, which no expected value equals (all are far below 2^24)
+static const long long NOT_AN_INTEGER = 1000000007LL;
+static Json numI(double d)
+{
+  if (d != d || std::isinf(d)) return Json(NOT_AN_INTEGER);
+  const double r = std::floor(d + 0.5);
+  if (std::fabs(d - r) <= TOL && std::fabs(r) < 1e9) return Json((long long)r);
+  return Json(NOT_AN_INTEGER);
+}
 static Json fix(double d, bool &nan)
 {
   if (d != d) {
@@ -160,9 +170,25 @@ struct K3
     a.push(num(2 * (double)q.k));
     return a;
   }
+  template <typename VV>
+  static Json jvI(const VV &v)
+  {
+    Json a = Json::array();
+    a.push(numI(v.x));
+    a.push(numI(v.y));
+    a.push(numI(v.z));
+    return a;
+  }
   Json state(Json o) const
   {
-    o.set("st", jaff(cur));
+    Json st = Json::object(), l = Json::array(), r0 = Json::array(), r1 = Json::array(), r2 = Json::array();
+    r0.push(numI(cur.l.vx.x)); r0.push(numI(cur.l.vy.x)); r0.push(numI(cur.l.vz.x));
+    r1.push(numI(cur.l.vx.y)); r1.push(numI(cur.l.vy.y)); r1.push(numI(cur.l.vz.y));
+    r2.push(numI(cur.l.vx.z)); r2.push(numI(cur.l.vy.z)); r2.push(numI(cur.l.vz.z));
+    l.push(r0); l.push(r1); l.push(r2);
+    st.set("l", l);
+    st.set("p", jvI(cur.p));
+    o.set("st", st);
     return o;
   }
 
@@ -368,6 +394,18 @@ struct K3
       o.set("diff2", jq2(x - y));
       o.set("dot4", num(4 * (double)dot(x, y)));
       o.set("m", jm(L(x)));
+    } else if (a == "QuatRat") {
+      // rotation with the rational matrix num / den = the rotation of the integer quaternion h / |h|
+      const Json &n = arg["num"];
+      const T d = (T)arg["den"].num();
+      const L R(V(e(n, 0, 0) / d, e(n, 1, 0) / d, e(n, 2, 0) / d), V(e(n, 0, 1) / d, e(n, 1, 1) / d, e(n, 2, 1) / d),
+                V(e(n, 0, 2) / d, e(n, 1, 2) / d, e(n, 2, 2) / d));
+      const Json &h = arg["h"];
+      const Q hq((T)h[(size_t)0].num(), (T)h[(size_t)1].num(), (T)h[(size_t)2].num(), (T)h[(size_t)3].num());
+      const T inv = T(1) / std::sqrt(d);
+      o.set("m_s", jmS(L(quatOfMatrix(R))));
+      o.set("qm_s", jmS(L(Q(hq.r * inv, hq.i * inv, hq.j * inv, hq.k * inv))));
+      o.set("nm_s", jmS(L(normalize(hq))));
     } else if (a == "QuatYPR") {
       const T h = (T)(PI / 2);
       const Q q((T)arg["y"].num() * h, (T)arg["p"].num() * h, (T)arg["r"].num() * h);
@@ -409,10 +447,10 @@ struct K3
       return state(o);
     } else if (a == "TQuery") {
       const V v = vec(arg["v"]);
-      o.set("point", jv(xfmPoint(cur, v)));
-      o.set("vector", jv(xfmVector(cur, v)));
-      o.set("normal", jv(xfmNormal(cur, v)));
-      o.set("det", num(cur.l.det()));
+      o.set("point", jvI(xfmPoint(cur, v)));
+      o.set("vector", jvI(xfmVector(cur, v)));
+      o.set("normal", jvI(xfmNormal(cur, v)));
+      o.set("det", numI(cur.l.det()));
       return state(o);
     } else {
       o.set("ret", "unknown action " + a);
